@@ -10,6 +10,128 @@ use serde_json::json;
 
 pub struct C01;
 
+/// Capacity populations: the statement quantifies over "more than 64 simultaneously active
+/// states, more than 8 concurrent tap-holds and more than 16 concurrent one-shots"; the general
+/// generator reaches these limits too rarely (and never with a custom action pressed at the
+/// limit), so they get generated on purpose.
+fn gen_capacity(r: &mut Rng, seed: u64) -> Case {
+    let mut case = Case { prop: "C01".into(), seed, ..Default::default() };
+    let kind = *r.pick(&["states", "states", "tapholds", "oneshots"]);
+    let fill: Vec<&str> = if kind == "oneshots" { vec!["q", "w", "e", "r", "t", "y", "u", "i", "o", "p", "6", "7", "8", "9", "0", "f5", "f6", "f7", "f8", "f9"] } else { vec!["q", "w", "e", "r", "t", "y", "u", "i", "o", "p", "6", "7"] };
+    let outk = ["a", "b", "c", "d", "f", "g", "h", "j", "k", "l", "z", "x", "v", "n", "m", "1", "2", "3", "4", "5"];
+    let others: Vec<&str> = vec!["f1", "f2", "f3", "f4"];
+    // actions whose release handler must run
+    let custom_pool = [
+        "mlft",
+        "mrgt",
+        "(mwheel-up 50 120)",
+        "(mwheel-left 30 120)",
+        "(movemouse-up 5 1)",
+        "(movemouse-accel-left 5 200 1 5)",
+        "(unmod z)",
+        "(unshift x)",
+        "(layer-while-held l1)",
+        "lsft",
+        "(one-shot 30 lctl)",
+        "(tap-hold 20 20 a lalt)",
+        "(multi lctl (mwheel-down 40 120))",
+        "(multi (on-press press-vkey vk0) (on-release release-vkey vk0))",
+        "(macro a b)",
+        "C-S-c",
+        "(caps-word 100)",
+    ];
+    let mut src: Vec<String> = fill.iter().map(|s| s.to_string()).collect();
+    src.extend(others.iter().map(|s| s.to_string()));
+    let mut acts: Vec<String> = vec![];
+    match kind {
+        "states" => {
+            for i in 0..fill.len() {
+                let n = r.range(6, 10) as usize;
+                let ks: Vec<&str> = (0..n).map(|j| outk[(i * 3 + j) % outk.len()]).collect();
+                acts.push(format!("(multi {})", ks.join(" ")));
+            }
+        }
+        "tapholds" => {
+            for i in 0..fill.len() {
+                let v = *r.pick(&["tap-hold", "tap-hold-press", "tap-hold-release"]);
+                acts.push(format!("({v} {} {} {} {})", r.range(5, 40), r.range(30, 90), outk[i], *r.pick(&["lsft", "lctl", "(layer-while-held l1)", "lalt"])));
+            }
+        }
+        _ => {
+            for i in 0..fill.len() {
+                let v = *r.pick(&["one-shot", "one-shot-release", "one-shot-press-pcancel", "one-shot-release-pcancel"]);
+                acts.push(format!("({v} {} {})", r.range(60, 300), *r.pick(&["lsft", "lctl", "lalt", "lmet", "rsft", "rctl", "ralt", "rmet", outk[i % outk.len()]])));
+            }
+        }
+    }
+    for _ in 0..others.len() {
+        acts.push(r.pick(&custom_pool).to_string());
+    }
+    let l1: Vec<String> = src.iter().map(|_| if r.chance(300) { "_".to_string() } else { r.pick(&outk).to_string() }).collect();
+    case.cfg = format!(
+        "(defcfg concurrent-tap-hold {} process-unmapped-keys no)\n(defsrc {})\n(defvirtualkeys vk0 rctl)\n(deflayer l0 {})\n(deflayer l1 {})\n",
+        if r.chance(700) { "yes" } else { "no" },
+        src.join(" "),
+        acts.join(" "),
+        l1.join(" ")
+    );
+    let code = |k: &str| oscode_of(k);
+    let mut ops: Vec<Op> = vec![];
+    let mut down: Vec<&str> = vec![];
+    // phase 1: go to the limit
+    let mut order = fill.clone();
+    r.shuffle(&mut order);
+    let nfill = match kind {
+        "states" => r.range(6, 11),
+        "tapholds" => r.range(8, 12),
+        _ => r.range(14, 20),
+    } as usize;
+    for k in order.iter().take(nfill) {
+        ops.push(Op::Press(code(k)));
+        down.push(k);
+        ops.push(Op::Gap(r.range(0, 2) as u32));
+        if kind == "oneshots" {
+            ops.push(Op::Release(code(k)));
+            down.retain(|x| x != k);
+            ops.push(Op::Gap(r.range(0, 2) as u32));
+        }
+    }
+    // phase 2: other keys at the limit
+    let n2 = r.range(2, 12);
+    for _ in 0..n2 {
+        let k = *r.pick(&others);
+        if down.contains(&k) {
+            ops.push(Op::Release(code(k)));
+            down.retain(|x| *x != k);
+        } else {
+            ops.push(Op::Press(code(k)));
+            down.push(k);
+        }
+        ops.push(Op::Gap(*r.pick(&[0u32, 1, 2, 5, 25])));
+        if r.chance(200) && !down.is_empty() {
+            // a filler key comes up / goes down in between
+            let k = *r.pick(&order[..nfill]);
+            if down.contains(&k) {
+                ops.push(Op::Release(code(k)));
+                down.retain(|x| *x != k);
+            } else {
+                ops.push(Op::Press(code(k)));
+                down.push(k);
+            }
+            ops.push(Op::Gap(r.range(0, 3) as u32));
+        }
+    }
+    // phase 3: release everything in random order
+    r.shuffle(&mut down);
+    for k in down {
+        ops.push(Op::Release(code(k)));
+        ops.push(Op::Gap(r.range(0, 4) as u32));
+    }
+    case.ops = ops;
+    case.set("pop", format!("capacity-{kind}"));
+    case
+}
+
 const TAIL_E: u64 = 300;
 
 impl Prop for C01 {
@@ -27,6 +149,9 @@ impl Prop for C01 {
     }
     fn gen(&self, seed: u64, tier: Tier) -> Case {
         let mut r = Rng::new(seed);
+        if r.chance(120) {
+            return gen_capacity(&mut r, seed);
+        }
         let pressure = r.chance(150);
         let o = GenOpts {
             feats: feat::ALL_RUNTIME & !feat::DELAY,
@@ -108,6 +233,9 @@ impl Prop for C01 {
         st.track_custom = true;
         st.run_ops(&case.ops);
         let mut o = RunOut::pass();
+        if let Some(p) = case.param("pop") {
+            o.count(&format!("pop.{p}"), 1);
+        }
         fault_counts(&mut o, &case.ops);
         let any_down = {
             let mut d = DownSet::default();
